@@ -32,6 +32,7 @@
 #include <numeric>
 #include <vector>
 #include <string>
+#include <stdexcept>
 #include "soplex/spxdefines.h"
 
 #ifdef SOPLEX_WITH_GMP
@@ -203,6 +204,10 @@ inline Rational ratFromString(const char* desc)
             int exponentidx = int(it - s.begin());
             mult = std::stoi(s.substr(exponentidx + 1, s.length()));
             s = s.substr(0, exponentidx);
+
+            // the power of ten is computed exactly below: refuse exponents whose power would exhaust time and memory
+            if(mult > 100000 || mult < -100000)
+               throw std::out_of_range("exponent of rational number too large");
          }
 
          // std::cout << s << std::endl;
